@@ -43,11 +43,21 @@ func Encode(enc zapcore.Encoder, ent zapcore.Entry, p Placement, viaCore bool) (
 		// earlier use (the bytes of the second line are what is checked)
 		first := append([]byte(nil), s.b...)
 		s.b = s.b[:0]
+		// in between, an entry of the other kind through the same core: without call-site
+		// fields if this one has some, with one plain field if it has none
+		other := []zapcore.Field(nil)
+		if len(call) == 0 {
+			other = []zapcore.Field{{Key: "zz_between", Type: zapcore.Int64Type, Integer: 7}}
+		}
+		if err := core.Write(ent, other); err != nil {
+			return nil, fmt.Sprintf("intermediate core.Write returned %v", err)
+		}
+		s.b = s.b[:0]
 		if err := core.Write(ent, call); err != nil {
 			return nil, fmt.Sprintf("second core.Write returned %v", err)
 		}
 		if !bytes.Equal(first, s.b) {
-			return nil, fmt.Sprintf("the same entry written twice through the same core gives different lines: first %q, second %q", clip(first), clip(s.b))
+			return nil, fmt.Sprintf("the same entry written again through the same core (after an entry %s call-site fields) gives a different line: first %q, then %q", map[bool]string{true: "with", false: "without"}[len(call) == 0], clip(first), clip(s.b))
 		}
 		return s.b, nil
 	}
